@@ -154,10 +154,10 @@ INFO = {
         "rulefn": _field_rule,
         "trusted": ["irreducibility of the generated f is guaranteed by the harness (irreducible modulo a small prime / known family), not re-checked by the oracle (which requires f primitive, squarefree, degree >= 1)",
                     "closed-form field discriminants (quadratic, pure cubic, cyclotomic, biquadratic) computed in the harness"],
-        "gaps": ["closure under multiplication and p-maximality at every p with p^2 | disc (Pohst-Zassenhaus) are not proved: certified on every explored case by Spec.MaxOrder with two independent maximality criteria (radical by Frobenius kernel + injectivity of O/pO -> End(I_p/pI_p) over F_p; and, for small p^n, the definition); invariance of the discriminant under change of generator is certified per case", "termination of the Round 2 loop is not proved (theorems are about runs that return)"],
+        "gaps": ["termination of the Round 2 loop (and of the discriminant factorisation by trial division) is not proved: the theorems are about runs that return; invariance of the discriminant under a change of generator follows from maximality mathematically but is stated per field only through the per-case checks (theta+k, -theta, c*theta, 1/theta)"],
         "assumptions": ["f irreducible (squarefree) of degree >= 1"],
-        "level_text": "Theorems about the Lean model of integral_basis/mod.rs and round2.rs for every f, for runs that return: the primes visited are exactly the primes whose square divides disc of the starting order; every Round 2 step returns a stored (canonical) non-singular order CONTAINING its argument with index p^howmany; the result O of find_integral_basis contains the starting order Z[theta] meet Z[1/theta] and contains 1, the index (O : start) = i >= 1 has i^2 | disc(start) with every prime factor of i having its square divide disc(start), disc(O) is computed and disc(start) = i^2 * disc(O) — and these are exactly the two numbers the CLI prints. Closure under multiplication and p-maximality are certified per explored case by independent oracles; per-step correspondence through a feature-guarded wrapper.",
-        "level_note": "Trusted: Lean kernel + 3 standard axioms; correspondence coverage. Partial: maximality and ring closure are certified per explored case, not proved.",
+        "level_text": "Full theorems about the Lean model of integral_basis/mod.rs and round2.rs (Pohst-Zassenhaus Round 2), for every canonical f of degree >= 1 (monic or not) and runs that return: the starting order Z[theta] meet Z[1/theta] is a ring; every Round 2 step computes exactly the multiplier ring of the p-radical (semantics of mul_mod_p, pow_mod_p, the Frobenius kernel I_p, the U_p loop), returns a ring containing its argument with index p^howmany, and howmany = 0 only for a p-maximal order; the result O of find_integral_basis is a full-rank module that contains 1 and the starting order, is CLOSED UNDER MULTIPLICATION, is P-MAXIMAL AT EVERY PRIME, and NO STRICTLY LARGER ORDER EXISTS (every multiplicatively closed lattice containing O equals O); disc(start) = index^2 * disc(O), the discriminant of every order is an integer, and these are the two numbers the CLI prints. Model tied to the code by differential testing (whole routine and each Round 2 step through a feature-guarded wrapper); every output also decided by independent maximality oracles; CLI cases.",
+        "level_note": "Trusted: Lean kernel + 3 standard axioms; Mathlib (commutative algebra, AdjoinRoot, discriminants); correspondence coverage.",
     },
     "C16": {
         "rule": "maximal orders (find_integral_basis) of quadratic fields x^2+-d, pure cubics, quartics and quintics from a fixed verified list and random monic irreducible cubics; ideals generated by 1..3 random elements, prime ideals from decompose, principal ideals, powers; all pairs and some triples for sum, product, laws; membership of random and constructed elements; inverse w.r.t. the implementation's inverse different; inverse different vs the order's discriminant. Non-trivial: matrix arguments of dimension >= 2.",
@@ -174,9 +174,9 @@ INFO = {
         "rule": "decompose on the fields of C16 (incl. fields with non-trivial index so that primes dividing the index occur and must be refused) for all primes <= 60 (thorough 200) and three primes beyond 2^64; ramified, inert, split and mixed types; random history of factorize_mod_p captured and replayed; the CLI (to_find = prime-decomposition) as a process. Non-trivial: matrix arguments of dimension >= 2.",
         "rulefn": _field_rule,
         "trusted": ["hooked RNG + Lean draw decoder", "primality of p beyond 2^64 from a fixed list; irreducibility over such p by Rabin's test alone"],
-        "gaps": ["Kummer-Dedekind proper is not proved: primality and pairwise distinctness of the P_i, norm p^f_i, prod P_i^e_i = (p): certified on every explored case by Spec.Ideal (recovery of g_i from P_i by linear algebra over F_p, O/P_i = F_p[x]/(g_i), exact spec-side ideal product); totality of decompose (no panic on legal input) is not a theorem"],
+        "gaps": ["the product clause prod P_i^e_i = (p) holds for maximal (integrally closed) orders, for unramified p, or under Dedekind's criterion — it is FALSE for a non-maximal order with p not dividing the index (kernel-checked counterexample x^2+4, p = 2), so maximality is a hypothesis of that clause ('maximal order' is part of the property's statement); that the Round 2 output's table is integrally closed in Mathlib's sense is linked only through C06's maximality theorem, not yet as an instance; totality of decompose (no panic on legal input) is not a theorem"],
         "assumptions": ["monic irreducible f, maximal order, p prime"],
-        "level_text": "Theorems about the Lean model of prime_decomp/simple.rs for every monic f, every stream of draws and runs that return: the routine refuses (explicit panic) when p divides the index and the guard passed otherwise; the result has one pair per factor of f mod p returned by factorize_mod_p (fully verified in C08: monic, irreducible, distinct) with the same exponents, sum e_i * deg g_i = deg f, e_i >= 1; each P_i = (g_i(theta)) + (p) as a lattice (coordinates of g_i(theta) obtained by solving against the integral basis), is an O-ideal containing p*O, and its intersection with Z is pZ exactly when P_i is not the unit ideal (cap_z = p or 1); machine-word copy clause. Model tied to the code by replaying the captured random history; every output decided by an independent oracle; process-level CLI cases.",
+        "level_text": "Theorems about the Lean model of prime_decomp/simple.rs for every monic f, order O containing Z[theta] with 1 as first basis vector, prime p not dividing the index, every stream of draws, runs that return: O/pO is isomorphic to F_p[x]/(f mod p) (ring isomorphism constructed); each P_i = (p, g_i(theta)) has norm p^(deg g_i), P_i meet Z = pZ (cap_z = p), is proper, PRIME and MAXIMAL; the P_i are pairwise comaximal and distinct; exponents are those of the (fully verified) modular factorisation and sum e_i f_i = n; prod P_i^e_i is contained in (p), with equality iff p lies in every P_i^e_i, and equality is PROVED for integrally closed tables, for unramified p and under Dedekind's criterion (the model's iterated `mul` returns the HNF of pO); the routine refuses when p divides the index. Model tied to the code by replaying the captured random history; outputs decided by an independent oracle; CLI cases.",
         "level_note": "Trusted: Lean kernel + 3 standard axioms; RNG hook/decoder; correspondence coverage. Partial: Kummer-Dedekind is certified per explored case, not proved.",
     },
     "C07": {
